@@ -96,7 +96,7 @@ def convergence_family(seed, n):
 
 
 # ============================================================================================================ C05
-INPUT_KINDS = ["live", "zero", "phase-off", "reg-off", "shared"]
+INPUT_KINDS = ["live", "zero", "phase-off", "reg-off", "shared", "reg-dropout"]
 
 
 def mux_recipe(pattern, rs_list, rnd, polarity=1):
@@ -117,6 +117,12 @@ def mux_recipe(pattern, rs_list, rnd, polarity=1):
                                                                   "args": {"LinReg": {"vo": polarity * 5.0, "iis": 1e-5}, "Converter": {"vo": polarity * 5.0, "eff": 0.9, "iis": 1e-5}, "PSwitch": {"rs": 0.1, "iis": 1e-6}}["LinReg"]}, "rail": "R_" + nm})
             ops[-1]["comp"]["kind"] = "LinReg"
             cphase.append((nm, ["b"])); inputs.append(nm)
+        elif kind == "reg-dropout":
+            # a regulator that is ON but in full drop-out (its own weak source is below the drop-out voltage): delivers exactly 0 V
+            nm = "Q%d" % j
+            ops.append({"op": "add_source", "comp": {"kind": "Source", "name": "W%d" % j, "args": {"vo": polarity * 2.0, "rs": 0.0}}, "rail": ""})
+            ops.append({"op": "add_comp", "parent": "W%d" % j, "comp": {"kind": "LinReg", "name": nm, "args": {"vo": polarity * 3.0, "vdrop": 2.5, "ig": 1e-5}}, "rail": rnd.choice(["", "R_" + nm])})
+            inputs.append(nm)
         else:
             nm = "T%d" % j
             ops.append({"op": "add_comp", "parent": "S0", "comp": {"kind": "RLoss", "name": nm, "args": {"rs": 0.1}}, "rail": ""})
@@ -130,13 +136,15 @@ def mux_recipe(pattern, rs_list, rnd, polarity=1):
     ops.append({"op": "add_comp", "parent": "D0", "comp": {"kind": "ILoad", "name": "L1", "args": {"ii": 0.01}}})
     ops.append({"op": "add_comp", "parent": "S0", "comp": {"kind": "ILoad", "name": "L2", "args": {"ii": 0.02}}})
     ops.append({"op": "set_sys_phases", "phases": {"a": 10.0, "b": 1.0}})
+    if rnd.random() < 0.3: cphase.append(("MX", rnd.choice([["a"], ["b"]])))        # the mux itself sleeps in one phase (draws iis from its selected input)
     for nm, conf in cphase:
         ops.append({"op": "set_comp_phases", "name": nm, "conf": conf})
     return {"ops": ops}
 
 
 def mux_case(args):
-    seed, idx, pattern, rs_list, pol = args
+    seed, idx, pattern, rs_list, pol = args[:5]
+    want = set(args[5]) if len(args) > 5 else {"C05", "C04"}
     rnd = _rnd(seed, idx)
     recipe = mux_recipe(pattern, rs_list, rnd, pol)
     out = {"hash": _hash(recipe), "failures": [], "nontrivial": True, "sample": None, "outcome": None}
@@ -146,8 +154,10 @@ def mux_case(args):
     if oc != "table":
         out["failures"].append({"key": "mux.solve", "text": "mux pattern %s: solve() ended with %s" % (pattern, oc), "props": ["C05"], "recipe": recipe}); return out
     for f in oracle.check_table(m, df, s, ta=35.0):
-        if set(f["props"]) & {"C05", "C04"} or f["key"].startswith("row."):
-            f = dict(f); f["recipe"] = recipe; f["props"] = list(set(f["props"]) | {"C05"}); out["failures"].append(f)
+        if set(f["props"]) & want or ("C05" in want and f["key"].startswith("row.")):
+            f = dict(f); f["recipe"] = recipe; f["props"] = list(set(f["props"]) | ({"C05"} if "C05" in want else set())); out["failures"].append(f)
+    if "C05" not in want:
+        return out
     # no other input sees any current from the mux: every non-selected input's Iout excludes the mux
     rows, _ = oracle.rows_by_key(df)
     for ph in m.phases:
@@ -164,7 +174,7 @@ def mux_case(args):
     return out
 
 
-def mux_family(seed, tier):
+def mux_family(seed, tier, props=("C05", "C04")):
     jobs, idx = [], 0
     for n in (1, 2, 3, 4):
         pats = list(itertools.product(INPUT_KINDS, repeat=n))
@@ -174,9 +184,9 @@ def mux_family(seed, tier):
             if sum(1 for k in pat if k == "shared") > 1 and tier == "quick": continue
             for rs_list in (False, True):
                 for pol in ((1, -1) if tier != "quick" or idx % 3 == 0 else (1,)):
-                    jobs.append((seed, idx, pat, rs_list, pol)); idx += 1
+                    jobs.append((seed, idx, pat, rs_list, pol, tuple(props))); idx += 1
     res = summarize(run_pool(mux_case, jobs),
-                    "every live/dead pattern of 1..4 mux inputs over {live source, 0 V source, phase-inactive source, inactive regulator upstream, second tap of the same source} (quick: sampled for 3-4 inputs), scalar and per-input rs, both polarities, 2 phases",
+                    "every live/dead pattern of 1..4 mux inputs over {live source, 0 V source, phase-inactive source, inactive regulator upstream, second tap of the same source, regulator in full drop-out (on, 0 V) on its own source}; the mux itself asleep in one phase now and then (quick: sampled for 3-4 inputs), scalar and per-input rs, both polarities, 2 phases",
                     "1..4 inputs; %s" % ("exhaustive patterns" if tier != "quick" else "exhaustive for 1-2 inputs, sampled for 3-4"))
     res["exhaustive"] = tier != "quick"
     return res
@@ -463,7 +473,15 @@ def roundtrip_case(args):
                 gen.apply_op(s_sh, copy.deepcopy(op)); shadow.apply(op); ops.append(op)
             except Exception:
                 pass
-        recipe = {"ops": ops}
+        if rnd.random() < 0.2:
+            # node slot 0 is freed and re-used by the mux (rustworkx re-uses freed indices): sentinels such as 'index > 0' show here
+            so = hist.spec_of
+            ops = [{"op": "system", "comp": so("Source", "S0", rnd), "group": "", "rail": ""}, {"op": "add_source", "comp": so("Source", "S1", rnd), "group": "", "rail": "R1"},
+                   {"op": "add_source", "comp": so("Source", "S2", rnd), "group": "", "rail": ""}, {"op": "add_comp", "parent": "S0", "comp": so("ILoad", "L9", rnd), "group": "", "rail": ""},
+                   {"op": "del_comp", "name": "S0", "del_childs": True},
+                   {"op": "add_comp", "parent": rnd.choice([["S1", "S2"], ["S2", "R1"], ["S2"]]), "comp": so("PMux", "MX"), "group": "g", "rail": "RM"},
+                   {"op": "add_comp", "parent": "MX", "comp": so("Converter", "C5", rnd), "group": "", "rail": ""}, {"op": "add_comp", "parent": "C5", "comp": so("PLoad", "L5", rnd), "group": "", "rail": ""}]
+        recipe = {"ops": ops, "probes": [rnd.random() < 0.5 for _ in ops]}
     else:
         recipe = gen.random_system(rnd, max_nodes=8, n_sources=(1, 3), p_mux=0.5, p_table=0.4, p_limits=0.6, p_phases=0.5, p_rails=0.4, p_groups=0.4, p_byrail=0.3)
         # limits with only a lower / only an upper bound, applicable and not
@@ -474,7 +492,18 @@ def roundtrip_case(args):
     out = {"hash": _hash(recipe), "failures": [], "nontrivial": True, "sample": None, "outcome": None}
     from sysloss.system import System
     try:
-        s, _ = gen.build(recipe, strict=False)
+        if recipe.get("probes"):
+            # reports between the edits (they fill whatever caches the analysis keeps); the last edit may be followed directly by save()
+            s = None
+            for op, probe in zip(recipe["ops"], recipe["probes"]):
+                try: s = gen.apply_op(s, copy.deepcopy(op))
+                except Exception:
+                    if s is None: raise
+                if probe:
+                    try: rnd.choice([s.solve, s.params, s.phases])()
+                    except Exception: pass
+        else:
+            s, _ = gen.build(recipe, strict=False)
     except Exception as e:
         out["failures"].append({"key": "gen.build", "text": str(e), "props": [], "fault": True}); return out
     def F(key, text): out["failures"].append({"key": key, "text": text, "props": ["C12"], "recipe": recipe})
@@ -584,6 +613,10 @@ def ctor_rejections():
         R.append((K, dict(extra, **{key: _tbl(key, good, io=(0.5, 0.1, 1.0))}), "io not monotonic"))
         R.append((K, dict(extra, **{key: _tbl(key, [[0.1, 0.2, 0.3]])}), "rows do not match vi"))
         R.append((K, dict(extra, **{key: _tbl(key, [[0.1, 0.2], [0.2, 0.3]])}), "columns do not match io"))
+        # same number of entries as len(vi)*len(io), wrong shape
+        R.append((K, dict(extra, **{key: _tbl(key, [[0.1, 0.2], [0.2, 0.3], [0.3, 0.4]])}), "transposed table (3x2 for 2 vi rows x 3 io columns)"))
+        R.append((K, dict(extra, **{key: _tbl(key, [[0.1, 0.2, 0.3, 0.2, 0.3, 0.4]])}), "2-D table given as one flat row"))
+        R.append((K, dict(extra, **{key: {"vi": [3.3], "io": [0.1, 0.5, 1.0], key: [[0.1], [0.2], [0.3]]}}), "1-D table given as a column"))
     for K, extra in (("LinReg", {"vo": 5.0}), ("PSwitch", {}), ("PMux", {}), ("Rectifier", {})):
         R.append((K, dict(extra, ig=_tbl("ig", [[0.1, -0.2, 0.3], [0.2, 0.3, 0.4]])), "negative tabulated ground current"))
     for K, good in (("Source", {"vo": 5.0}), ("PLoad", {"pwr": 1.0}), ("ILoad", {"ii": 1.0}), ("RLoad", {"rs": 1.0}), ("RLoss", {"rs": 1.0}), ("VLoss", {"vdrop": 1.0}), ("Converter", {"vo": 5.0, "eff": 0.8}),
@@ -674,7 +707,13 @@ def interp_case(args):
     const = rnd.random() < 0.2
     cval = round(rnd.uniform(lo, hi), 4)
     tb = [[(cval if const else round(rnd.uniform(lo, hi), 5)) for _ in io] for _ in vi]
-    tbl = {"vi": vi, "io": io, key: tb}
+    form = rnd.random()
+    if not const and form < 0.15: tb = [[round(rnd.uniform(lo, hi), 5)] * ni for _ in vi]             # rows flat over io, differing between rows
+    elif not const and form < 0.3:
+        col = [round(rnd.uniform(lo, hi), 5) for _ in io]; tb = [list(col) for _ in vi]                  # columns flat over vi
+    neg_axis = rnd.random() < 0.2
+    tbl = {"vi": [(-v if neg_axis else v) for v in vi], "io": io, key: tb}
+    if rnd.random() < 0.2: tbl = dict(tbl, io=[-x for x in io[::-1]], **{key: [r[::-1] for r in tb]})      # current axis written with negative values (strictly increasing): same table by magnitude
     spec = {"kind": kind, "name": "X", "args": dict(extra, **{key: tbl})}
     out = {"hash": _hash(spec), "failures": [], "nontrivial": True, "sample": None, "outcome": "interp"}
     def F(k, text): out["failures"].append({"key": k, "text": text, "props": ["C10"], "table": tbl, "component": kind})
@@ -778,6 +817,10 @@ def toml_case(args):
     if cls == "Rectifier": a.setdefault("vdrop", 0.0)
     if cls == "PMux" and rnd.random() < 0.4: a["rs"] = [0.01, 0.03]
     if cls == "Converter" and isinstance(a["eff"], (int, float)): a["eff"] = float(a["eff"])
+    if cls == "LinReg" and rnd.random() < 0.35:
+        # the deprecated iq key (scalar or table), alone or next to a different ig: the constructor lets iq win
+        a["iq"] = rnd.choice([2e-3, 5e-4, 0.0, {"vi": [5.0], "io": [0.0, 0.1, 1.0], "iq": [[1e-3, 2e-3, 3e-3]]}])
+        if rnd.random() < 0.4: a.pop("ig", None)
     # optional keys are dropped at random: the constructor defaults must apply
     for k in list(a):
         if k not in MANDATORY[cls] and rnd.random() < 0.4: a.pop(k)
@@ -796,7 +839,21 @@ def toml_case(args):
     def F(key, text): out["failures"].append({"key": key, "text": text, "props": ["C13"], "toml": doc, "kind": cls})
     fd, p = tempfile.mkstemp(suffix=".toml"); os.close(fd)
     try:
-        with open(p, "w") as f: toml.dump(doc, f)
+        # single-row tables are written as TOML inline tables now and then (decoded as a dict subclass)
+        sec = TOML_SECTION[cls]
+        inl = [k for k, v in doc[sec].items() if isinstance(v, dict) and len(v.get("vi", [])) == 1] if (mode == "ok" and rnd.random() < 0.35) else []
+        if inl:
+            d2 = copy.deepcopy(doc); lines = []
+            for k in inl:
+                t = d2[sec].pop(k)
+                lines.append("%s = {%s}" % (k, ", ".join("%s = %s" % (a_, json.dumps(b_)) for a_, b_ in t.items())))
+            txt = toml.dumps(d2)
+            hdr = "[%s]" % sec
+            txt = txt.replace(hdr + "\n", hdr + "\n" + "\n".join(lines) + "\n", 1) if hdr + "\n" in txt else txt + "\n" + hdr + "\n" + "\n".join(lines) + "\n"
+            with open(p, "w") as f: f.write(txt)
+            out["outcome"] = "ok-inline"
+        else:
+            with open(p, "w") as f: toml.dump(doc, f)
         K = getattr(C, cls)
         try:
             c1 = K.from_file("X", fname=p); e1 = None
@@ -865,10 +922,12 @@ def _quiet_tqdm():
     SY.tqdm = _NoBar
 
 
-def _battery_model(rnd, cap0, v0, r0, steps):
+def _battery_model(rnd, cap0, v0, r0, steps, shape=None):
     """battery model for the callbacks: every depletion call removes cap0/steps (so every run ends after <= steps+1 calls);
     voltage sags and impedance rises with the depth of discharge.  The callbacks record what they receive."""
     st = {"cap": cap0, "v": v0, "r": r0, "probe": 0, "deplete": 0, "calls": []}
+    shape = shape or rnd.choice(["sag", "sag", "plateau", "steps", "const"])
+    st["shape"] = shape
     def pfunc():
         st["probe"] += 1
         return (st["cap"], st["v"], st["r"])
@@ -877,7 +936,10 @@ def _battery_model(rnd, cap0, v0, r0, steps):
         st["calls"].append((dt, float(cur), st["v"], st["r"]))
         st["cap"] -= cap0 / steps
         frac = max(st["cap"], 0.0) / cap0
-        st["v"] = v0 * (0.75 + 0.25 * frac); st["r"] = r0 * (2.0 - frac)
+        if shape == "sag": st["v"] = v0 * (0.75 + 0.25 * frac); st["r"] = r0 * (2.0 - frac)
+        elif shape == "plateau": st["r"] = (r0 or 0.05) * (3.0 - 2.0 * frac)                                        # flat voltage, impedance rising as the cell empties
+        elif shape == "steps": st["v"] = v0 * (1.0 if frac > 0.5 else 0.9); st["r"] = (r0 or 0.02) * (1 + st["deplete"] % 3)   # stepwise voltage, impedance wandering
+        else: st["r"] = r0                                                                                             # constant battery
         return (st["cap"], st["v"], st["r"])
     return st, pfunc, dfunc
 
@@ -904,7 +966,8 @@ def analysis_case(args):
         d["hidx"] = None
         d["ipr"] = {s._g[i]._params["name"]: repr(sorted((k, repr(v)) for k, v in vars(s._g[i]._ipr).items() if k != "_intp")) if s._g[i]._ipr is not None else None for i in s._g.node_indices()}
         import sysloss.components as C
-        d["globals"] = json.dumps([C.LIMITS_DEFAULT, C.STATE_DEFAULT, C.STATE_OFF], sort_keys=True)
+        import sysloss.diagram as D_
+        d["globals"] = json.dumps([C.LIMITS_DEFAULT, C.STATE_DEFAULT, C.STATE_OFF, {k: v for k, v in vars(D_).items() if k.isupper() and isinstance(v, (dict, list, tuple, str, int, float))}, D_.get_conf()], sort_keys=True, default=str)
         return d
     ref = snap()
     tags = {"Tag": "x"}; tags0 = copy.deepcopy(tags)
@@ -938,7 +1001,8 @@ def analysis_case(args):
                     elif c in ("make_diag", "make_hdiag"):
                         import sysloss.diagram as D
                         conf = D.get_conf(); conf["node"]["Converter"] = {"fillcolor": "red"}; conf0 = copy.deepcopy(conf)
-                        getattr(D, c)(s, fname=p.replace(".json", ".dot"), config=conf)
+                        if rnd.random() < 0.5: getattr(D, c)(s, fname=p.replace(".json", ".dot"))            # no configuration: the module defaults are used (and must stay as they are)
+                        else: getattr(D, c)(s, fname=p.replace(".json", ".dot"), config=conf)
                         if conf != conf0: F("readonly.config", "%s changed the caller's configuration dictionary" % c)
                         try: os.unlink(p.replace(".json", ".dot"))
                         except OSError: pass
@@ -1006,6 +1070,21 @@ def battlife_case(args):
         except Exception as e: F("batt.notsource", "non-source battery raised %s instead of ValueError" % type(e).__name__)
         st["probe"] = st["deplete"] = 0; st["calls"] = []
     import io as _io, contextlib
+    if idx % 6 == 3:
+        # a battery model that answers with a malformed state (no impedance / no capacity): whatever batt_life raises, the battery is as before
+        bad = rnd.choice([lambda: (cap0, v0), lambda: (None, v0, r0), lambda: [cap0], lambda: (cap0, v0, r0)])
+        calls = {"n": 0}
+        def df_bad(dt, cur):
+            calls["n"] += 1
+            return rnd.choice([(cap0 / 2, v0), None, (cap0 / 2,)])
+        try:
+            with contextlib.redirect_stderr(_io.StringIO()):
+                s.batt_life(batt, cutoff=cutoff, pfunc=bad, dfunc=df_bad)
+        except Exception as e:
+            out["outcome"] = "malformed:" + type(e).__name__
+        if (bnode._params["vo"], bnode._params["rs"]) != (vo0, rs0):
+            F("batt.restore", "battery vo/rs not restored after a malformed battery-model answer (%r, %r) != (%r, %r)" % (bnode._params["vo"], bnode._params["rs"], vo0, rs0), ("C17", "C18"))
+        return out
     try:
         with contextlib.redirect_stderr(_io.StringIO()):
             log = s.batt_life(batt, cutoff=cutoff, pfunc=pf, dfunc=df_)
@@ -1021,7 +1100,7 @@ def battlife_case(args):
     if not (T[0] == 0.0 and Cp[0] == cap0 and V[0] == v0 and R[0] == r0): F("batt.initial", "log does not start from the probed state")
     # replay the model independently to know the state sequence
     states = [(cap0, v0, r0)]
-    st2, pf2, df2 = _battery_model(rnd, cap0, v0, r0, steps)
+    st2, pf2, df2 = _battery_model(rnd, cap0, v0, r0, steps, st["shape"])
     phases = list(m.phases) if m.phases else [""]
     exp_rows, t = [(0.0, cap0, v0, r0)], 0.0
     alive = cap0 > 0 and v0 > cutoff
@@ -1101,3 +1180,64 @@ def retime_family(seed, n):
     return summarize(run_pool(retime_case, [(seed, i) for i in range(n)]),
                      "phased random systems: solve(energy=True), set_sys_phases with the same names and other durations, solve again; compared with a fresh system built with the new durations and with the aggregate oracle",
                      "trees <= 6 components")
+
+
+# ============================================================================================================ re-configured phases (C03, C04, C06, C16)
+def _phase_conf_for(rnd, kind, pn):
+    from .gen import PHASED_KINDS
+    if kind in PHASED_KINDS or kind in ("RectD", "RectM"):
+        return rnd.choice([rnd.sample(pn, rnd.randint(1, len(pn))), [], ["zz"], [pn[-1]]])
+    if kind == "PLoad": return {p: rnd.choice([0.05, 0.3, 0.0]) for p in rnd.sample(pn, rnd.randint(1, len(pn)))}
+    if kind == "ILoad": return {p: rnd.choice([0.02, 0.004, 0.0]) for p in rnd.sample(pn, rnd.randint(1, len(pn)))}
+    if kind == "RLoad": return {p: rnd.choice([100.0, 1000.0]) for p in rnd.sample(pn, rnd.randint(1, len(pn)))}
+    return None
+
+
+def reconfig_case(args):
+    """solve(); then ONLY phase (re-)configuration calls; solve() again: must equal a fresh system built with the final configuration"""
+    seed, idx, props = args
+    rnd = _rnd(seed, idx)
+    recipe = gen.random_system(rnd, max_nodes=7, n_sources=(1, 2), p_mux=0.3, p_phases=rnd.choice([1.0, 1.0, 0.0]), p_table=0.15)
+    out = {"hash": _hash([recipe, idx]), "failures": [], "nontrivial": True, "sample": None, "outcome": None}
+    s, _ = gen.build(recipe); m = Model.of(recipe)
+    oc, df = _solve_outcome(s); out["outcome"] = oc
+    extra = []
+    pn = list(m.phases) if m.phases else []
+    for _ in range(rnd.randint(1, 3)):
+        r = rnd.random()
+        if r < 0.25 or not pn:
+            ph = rnd.choice([{"a": 4.0, "b": 6.0}, {"a": 1.0, "b": 2.0, "c": 3.0}, {"sleep": 100.0, "rx": 2.0, "tx": 1.0}, {"x": 5.0, "y": 1.0}])
+            op = {"op": "set_sys_phases", "phases": ph}; pn = list(ph)
+        else:
+            name = rnd.choice(list(m.nodes)); conf = _phase_conf_for(rnd, m.nodes[name].kind, pn)
+            if conf is None: continue
+            op = {"op": "set_comp_phases", "name": name, "conf": conf}
+        try:
+            gen.apply_op(s, op); extra.append(op)
+        except Exception:
+            pass
+    if not extra: return out
+    r2 = {"ops": copy.deepcopy(recipe["ops"]) + copy.deepcopy(extra)}
+    def F(key, text, pr): 
+        if set(pr) & set(props): out["failures"].append({"key": key, "text": text, "props": pr, "recipe": recipe, "then": extra})
+    oc2, df2 = _solve_outcome(s)
+    try:
+        s3, _ = gen.build(r2); m3 = Model.of(r2)
+    except Exception as e:
+        return out
+    oc3, df3 = _solve_outcome(s3)
+    out["outcome"] = "%s->%s" % (oc, oc2)
+    if oc2 != oc3:
+        F("reconfig.outcome", "solve, %s, solve: %s; a fresh system with that configuration: %s" % ([gen.short({"ops": [o]})[0] for o in extra], oc2, oc3), ["C03", "C06", "C16", "C04"]); return out
+    if oc2 == "table":
+        d = frames_differ(df2, df3, ["Component", "Phase"])
+        if d: F("reconfig.values", "after solve() and the phase configuration calls %s the table differs from a fresh system's: %s" % ([gen.short({"ops": [o]})[0] for o in extra], d), ["C03", "C06", "C16", "C04"])
+        for f in oracle.check_table(m3, df2, s):
+            F("reconfig:" + f["key"], f["text"], f["props"])
+    return out
+
+
+def reconfig_family(seed, n, props):
+    return summarize(run_pool(reconfig_case, [(seed, i, props) for i in range(n)]),
+                     "random systems: solve(), then only set_sys_phases / set_comp_phases calls (new plans, empty lists, names no phase carries, zero-valued entries), solve() again; compared with a fresh system built with the final configuration and with the table oracle",
+                     "trees <= 7 components, 1-3 configuration calls")
